@@ -9,7 +9,7 @@ STATIC = {
     "coverage": {
         "functions_encoded": T.FUNCS_S + T.FUNCS_C + T.FUNCS_E,
         "outside_claim": ["the client's in-flight maximum (capacity check in the dispatch before dequeuing a request) and the server channel's in_flight_requests() accessor: client::RequestDispatch / server::BaseChannel are out of CBMC's reach",
-                          "that the dispatch / channel actually call the removal path in every situation (write failures, channel drop, an execute future dropped half-way): the tables' own operations and the handle-dropped-without-execute guard are decided",
+                          "that the dispatch / channel actually call the removal path in every situation (write failures, channel drop, what BaseChannel does with a queued cancellation): the tables' own operations and the application-side handle (drop before / during execute, completion, abort) are decided",
                           "histories longer than 3 operations, more than 2 tracked requests (slot reuse within those bounds is covered)"],
     },
     "assumptions": T.ASSUMPTIONS + T.ASSUMPTIONS_E,
